@@ -40,7 +40,7 @@ def concrete(m, v):
     if isinstance(v, tuple) and len(v) == 2 and v[0] == "__vstack__":
         return [concrete(m, r) for r in v[1]]
     if isinstance(v, list):
-        return [concrete(m, x) for x in v]
+        return [concrete(m, x.v if isinstance(x, GItem) else x) for x in v if not isinstance(x, GItem) or _true(m, zbool(x.g))]
     if isinstance(v, tuple):
         return tuple(concrete(m, x) for x in v)
     if isinstance(v, dict):
